@@ -188,6 +188,16 @@ def order(ctx):
             ok = not held
             ctx.ob(rid, ok, f.loc(c), "reset() calls trigger() with no lock held", "" if ok else
                    "held: %s" % [(m, mo) for m, mo, _ in held], fn=f.label, inst=f.qname)
+        # reset deactivates the cycle it found active: the clearing store sits on the 'activated was set' side of a test of
+        # activated made in reset itself (a blind clear can kill an activation that began after reset's own look)
+        from ..typestate import NonNull
+        nn = NonNull(f)
+        for op in [o for o in atomic_ops(f) if atomic_field_of(f, o) == (CLS, "activated") and o["op"] in ("store", "rmw", "cas")]:
+            pos = f.pos_of(op["st"])
+            seen_set = op["name"] == "exchange" or (pos is not None and ("nn", "this.activated") in nn.before.get(tuple(pos), set()))
+            ctx.ob(rid, seen_set, f.loc(op["st"]), "reset() clears activated only where it has itself seen it set",
+                   "" if seen_set else "activated is cleared without a test of it in reset(): an activate() that lands just before "
+                   "is undone without its trigger ever firing, and its waiters stay blocked", fn=f.label, inst=f.qname)
         # the forced trigger comes first: trigger() does nothing on an inactive variable, so no trigger() call may be
         # reachable after activated was cleared
         clears = [op for op in atomic_ops(f) if atomic_field_of(f, op) == (CLS, "activated") and op["op"] in ("store", "rmw", "cas")]
